@@ -128,7 +128,10 @@ def simulate_real(wl, planned, plan, steps, sched):
   J = sched["J"]
   running = {}
   now = 0.0
-  stats = {"real_steps": 0, "overlap": False, "accesses": 0, "order": []}
+  stats = {"real_steps": 0, "overlap": False, "accesses": 0, "order": [],
+           "kills": 0, "torn_left": 0, "restarts": 0}
+  kill_at = sched.get("kill_at")
+  starts = 0
   pending_out = {}
   written = []
   prio = {e.id: rr.random() for e in plan.edges}
@@ -163,6 +166,13 @@ def simulate_real(wl, planned, plan, steps, sched):
       r = run_real_step(fs, step, planned)
       stats["real_steps"] += 1
       stats["accesses"] += len(r["access"])
+      torn_read = [v for v in step.imports_values
+                   if v in state.files and not state.files[v]["complete"]]
+      if torn_read:
+        return ({"class": "I4", "oracle": "real_read_of_torn_stub",
+                 "what": "after a kill+restart, step %r started while %r is a "
+                         "torn leftover of a killed step" % (step.output, torn_read[:3])},
+                None, stats)
       if missing:
         return ({"class": "I4", "oracle": "real_read_before_write",
                  "what": "step %r started while imports-map entries %r do not "
@@ -198,6 +208,31 @@ def simulate_real(wl, planned, plan, steps, sched):
       running[eid] = now + rr.choice([1.0, 2.0, 5.0])
       if len(running) >= 2:
         stats["overlap"] = True
+      starts += 1
+      if kill_at is not None and starts == kill_at and running:
+        # SIGKILL of ninja and its children: running steps die, whatever they
+        # had written so far stays on disk (pytype writes its stub with a plain
+        # open(..., "w") + write, not atomically), nothing is logged
+        torn = {}
+        for kid in sorted(running):
+          mode = rr.choice(["absent", "empty", "partial"])
+          torn[kid] = mode
+          text = pending_out.pop(kid) or ""
+          if mode == "empty":
+            fs.put(steps[kid].output, "")
+            stats["torn_left"] += 1
+          elif mode == "partial":
+            fs.put(steps[kid].output, text[: max(1, len(text) // 2)])
+            stats["torn_left"] += 1
+          if mode != "absent" and steps[kid].output not in written:
+            written.append(steps[kid].output)
+        inv.kill(torn)
+        running.clear()
+        stats["kills"] += 1
+        kill_at = None
+        # restart: ninja re-reads the plan and the log, recomputes dirtiness
+        inv = ninja_model.Invocation(plan, state, 0)
+        stats["restarts"] += 1
       continue
     if running:
       eid = min(running, key=lambda e: (running[e], e))
@@ -220,7 +255,8 @@ def evaluate(trace):
   wl = trace["workload"]
   log = kernel.EventLog(keep=False)
   stats = {"real_steps": 0, "builds": 0, "accesses": 0, "overlaps": 0,
-           "edges": 0, "skipped": 0, "first_pass_import_errors": 0}
+           "edges": 0, "skipped": 0, "first_pass_import_errors": 0,
+           "kills": 0, "torn_left": 0}
   fs = anacore.new_fs()
   fs.logging = False
   by_id = {m["id"]: m for m in wl["modules"]}
@@ -246,6 +282,8 @@ def evaluate(trace):
     stats["real_steps"] += st["real_steps"]
     stats["accesses"] += st["accesses"]
     stats["first_pass_import_errors"] += st.get("first_pass_import_errors", 0)
+    stats["kills"] += st["kills"]
+    stats["torn_left"] += st["torn_left"]
     log.add("build", [si, st["order"]])
     if st["overlap"]:
       stats["overlaps"] += 1
@@ -272,9 +310,12 @@ def generate(rng):
   wl = gen_project(rng)
   scheds = []
   for _ in range(rng.choice([2, 3, 3, 4])):
-    scheds.append({"J": rng.choice([1, 2, 3, 0]),
-                   "policy": rng.choice(["uniform", "pct", "decl", "rdecl"]),
-                   "seed": rng.randrange(1 << 40)})
+    sc = {"J": rng.choice([1, 2, 3, 0]),
+          "policy": rng.choice(["uniform", "pct", "decl", "rdecl"]),
+          "seed": rng.randrange(1 << 40)}
+    if rng.random() < 0.4:
+      sc["kill_at"] = rng.randrange(1, 6)
+    scheds.append(sc)
   return {"workload": wl, "schedules": scheds}
 
 
@@ -358,7 +399,7 @@ def plan(mode, tier):
 def new_agg(mode):
   return {"runs": 0, "real_steps": 0, "builds": 0, "accesses": 0, "overlaps": 0,
           "edges": 0, "skipped": 0, "nontrivial": 0, "sigs": set(),
-          "first_pass_import_errors": 0,
+          "first_pass_import_errors": 0, "kills": 0, "torn_left": 0,
           "violations": [], "samples": [], "digests": [], "timeouts": 0}
 
 
@@ -389,7 +430,7 @@ def run_chunk(args):
     agg["digests"].append(res["digest"])
     st = res["stats"]
     for k in ("real_steps", "builds", "accesses", "overlaps", "edges", "skipped",
-              "first_pass_import_errors"):
+              "first_pass_import_errors", "kills", "torn_left"):
       agg[k] += st[k]
     agg["nontrivial"] += res["nontrivial"]
     agg["sigs"].update(res["sigs"])
@@ -410,7 +451,8 @@ def run_chunk(args):
 
 def merge_agg(dst, src):
   for k in ("runs", "real_steps", "builds", "accesses", "overlaps", "edges",
-            "skipped", "nontrivial", "timeouts", "first_pass_import_errors"):
+            "skipped", "nontrivial", "timeouts", "first_pass_import_errors",
+            "kills", "torn_left"):
     dst[k] += src[k]
   dst["sigs"] |= src["sigs"]
   dst["violations"].extend(src["violations"])
@@ -438,7 +480,8 @@ def coverage(agg, mode, tier):
       "plan_edges_total": agg["edges"],
       "projects_without_steps": agg["skipped"],
       "first_pass_steps_with_expected_import_errors": agg["first_pass_import_errors"],
-      "faults_injected": "none in full mode (fast mode carries the fault dimension)",
+      "faults_fired": {"ninja_sigkill_then_restart": agg["kills"],
+                       "torn_or_empty_stubs_left_behind": agg["torn_left"]},
       "runs_killed_by_wall_cap": agg["timeouts"],
       "real_vs_stub": {
           "real": ["the planner (as in fast mode)", "every step body: "
